@@ -231,4 +231,27 @@ func runC20(c *eng.Ctx) {
 		// the copy shortcut for head chunks is taken only when nothing is deleted from the chunk
 		nx.GivenBranch("len(p.bufIter.Intervals) == 0", false).Unreachable("R3", eng.CallNamed("ChunkOrIterableWithCopy"))
 	}
+	// ---- R4 interval merging: the two ways `maxi` gets its value use the same unit ----
+	// Intervals.Add computes maxi with sort.Search over a domain of size (len(in) − mini), i.e. relative to mini, and
+	// later indexes in[maxi+mini−1] and in[maxi+mini:].  The value it has when the search is skipped (open-ended
+	// interval) must be the size of that same domain (finding F14/F27).
+	{
+		f := c.Fn("tsdb/tombstones:Intervals.Add")
+		def, dom := "", ""
+		ast.Inspect(f.Body, func(n ast.Node) bool {
+			as, ok := n.(*ast.AssignStmt)
+			if !ok || len(as.Lhs) != 1 || nodeText(as.Lhs[0]) != "maxi" {
+				return true
+			}
+			if call, ok := as.Rhs[0].(*ast.CallExpr); ok && nodeText(call.Fun) == "sort.Search" && len(call.Args) == 2 {
+				if l, ok := eng.Linear(f.Info, call.Args[0]); ok {
+					dom = l.String()
+				}
+			} else if l, ok := eng.Linear(f.Info, as.Rhs[0]); ok {
+				def = l.String()
+			}
+			return true
+		})
+		c.Check("R4", f.Where(), "the value of maxi when the upper search is skipped is the size of the domain the search ranges over (both relative to mini)", def != "" && def == dom, p.Pos(f.Body.Pos()), "default "+def+" vs search domain "+dom)
+	}
 }
